@@ -377,17 +377,26 @@ def h_twice(sym):
     outcomes = []
     try:
         swarm = Swarm(uris, factory=Factory(env, uris, lambda i, uri: FakeSCF(env, i, uri)))
+        args_dict = make_args(sym, uris, [1] * n) if sym.B.get('args') else None
+        snapshot = {k: list(v) for k, v in args_dict.items()} if args_dict else None
         for fails in (fails1, fails2):
             before = len(env.calls)
             action = make_action(env, fails)
             try:
-                swarm.parallel_safe(action)
+                if args_dict is None:
+                    swarm.parallel_safe(action)
+                else:
+                    swarm.parallel_safe(action, args_dict)      # the SAME dictionary object is passed to both calls
                 outcomes.append(None)
             except Exception as e:
                 outcomes.append(e)
             assert env.all_bodies_finished(), 'returned while a member thread had not finished'
             now = env.calls[before:]
             assert sorted(c[0] for c in now) == list(range(n)), 'each action must run exactly once per call'
+            if args_dict is not None:
+                for c in now:
+                    assert list(c[1]) == snapshot[uris[c[0]]], ('member received other arguments than its own entry', c[0])
+                assert {k: list(v) for k, v in args_dict.items()} == snapshot, "the caller's argument dictionary was modified"
     finally:
         env.restore()
     for fails, out in zip((fails1, fails2), outcomes):
@@ -553,7 +562,8 @@ def h_open_scf(sym):
 _PG = ('clean', 'raised', 'two-failed', 'first-ok-later-failed', 'reordered', 'finished-before-join')
 _OG = ('opened', 'second-open-refused', 'open-failed', 'opened-link-closed-again')
 HARNESSES = [
-    Harness('twice', h_twice, quick=dict(size=2), thorough=dict(size=3), goals=('clean-after-failed', 'failed-second'), symbolic=False,
+    Harness('twice[args]', h_twice, quick=dict(size=2, args=True), goals=('clean-after-failed', 'failed-second'), symbolic=False, timeout=(300, 900)),
+    Harness('twice', h_twice, quick=dict(size=2), thorough=dict(size=2), goals=('clean-after-failed', 'failed-second'), symbolic=False,
             timeout=(300, 900)),
     Harness('sequential', h_sequential, quick=dict(size=3), thorough=dict(size=4), timeout=(240, 1500),
             goals=('several', 'unsorted-uris', 'args', 'noargs')),
